@@ -19,6 +19,7 @@ COQ_IMPORTS = 'From VRP Require Import Base.Tac Model.Validation Spec.Rules.\nFr
 MODEL_TARGETS = ['theories/Model/Validation.vo', 'theories/Spec/Rules.vo']
 SIZES = {'quick': 2400, 'thorough': 30000, 'search': 6000}
 SHARD = 100
+SUBSTREAMS = ['c10_ext']     # extended documents (relations, objectives, matrices, ...): verdict from the Coq model, see c10_ext.py
 RULE = ('cases: pragmatic problem documents built from a valid base (1-3 jobs of every task kind, 1-2 vehicle types with shifts, '
         'breaks of all four kinds, reloads, resources) with 0-2 targeted deviations next to a rule boundary (touching / overlapping / '
         'inverted / unparsable windows, arities, duplicate ids, demand sums, resources, profiles, ...); ~35% stay valid. '
@@ -28,8 +29,8 @@ TRUSTED = ['RFC 3339 parsing (time crate) is an oracle: every time string travel
            'the generator only emits strings whose status is unambiguous (validated each run: a wrong mark shows up as a disagreement)',
            'serde deserialisation of the generated JSON into format/problem/model.rs types (the reduced document of the model is mapped to JSON by tools/props/c10.py::to_json)',
            'create_transport_costs on supplied matrices is modelled (Model/Validation.v run_transport) and compared on a separate stream; matrix timestamps are not in the Coq model (python reference: an unparsable timestamp is E0002)',
-           'rules of the relation / objective groups and E1502/E1503 are checked against a python reference (tools/props/c10.py), not against a Coq model',
-           'tools/rules2coq.py (regex extraction of the rule tables from validation/*.rs and the error index page)']
+           'main stream op=full: rules of the relation / objective groups and E1502/E1503 against a python reference (c10_full.py); the Coq verdict for these groups comes from the sub-stream c10_ext',
+           'tools/rules2coq.py (regex / brace-matching extraction of the rule tables, fingerprints and helper lists from validation/*.rs and the error index page; message texts, comments and white space are not part of a fingerprint)']
 ASSUMPTIONS = ['documents of the proved fragment: no relations, objectives, clustering, recharges, skills, limits; coordinate locations, all distinct; integer-valued numbers; |demand| small (no i32 overflow)',
                'adopted readings R1-R10 of the documentation page (Spec/Rules.v header)']
 
@@ -43,7 +44,9 @@ H = 3600
 KNAMES = {6: 'empty-capacity-vector-unchecked-panics-in-reader',
           7: 'more-than-8-load-dimensions-unchecked-panics',
           8: 'e1102-reported-for-empty-demand-vectors',
-          9: 'fleet-without-any-vehicle-panics-in-reader'}
+          9: 'fleet-without-any-vehicle-panics-in-reader',
+          # G2: found while the reader behind validation was modelled step by step (sub-stream c10_ext); the base model got the step too
+          22: 'required-breaks-of-mixed-kinds-or-intersecting-spans-rejected-as-E0002'}
 
 
 # ------------------------------------------------------------------ time strings
@@ -608,11 +611,38 @@ def dev_profiles(rng, d):
     return 'no-vehicles'
 
 
+def dev_required_breaks(rng, d):
+    vs = [(v, s) for v, s in _shifts(d) if s['earliest'][1] is not None]
+    if not vs:
+        return None
+    v, s = rng.choice(vs)
+    lo = (s['earliest'][1] - BASE) // H
+    k = rng.below(5)
+    if k == 0:
+        s['breaks'] = [['rexact', T((lo + 1) * H), T((lo + 2) * H), 600], ['roff', 4 * H, 5 * H, 600]]
+        lab = 'exact-and-offset'
+    elif k == 1:
+        s['breaks'] = [['rexact', T((lo + 1) * H), T((lo + 4) * H), -2 * H], ['rexact', T((lo + 3) * H), T((lo + 5) * H), 0]]
+        lab = 'negative-duration-spans-intersect'
+    elif k == 2:
+        s['breaks'] = [['rexact', T((lo + 3) * H), T((lo + 4) * H), 600], ['rexact', T((lo + 1) * H), T((lo + 2) * H), 600]]
+        lab = 'two-exact-unsorted'
+    elif k == 3:
+        s['breaks'] = [['roff', 1 * H, 2 * H, 600], ['roff', 3 * H, 4 * H, 0]]
+        lab = 'two-offset'
+    else:
+        s['breaks'] = [['roff', 1 * H, 2 * H, 600], ['otw', [T((lo + 5) * H), T((lo + 6) * H)]], ['rexact', T((lo + 8) * H), T((lo + 9) * H), 0]]
+        lab = 'offset-optional-exact'
+    if any(b[0] in ('roff', 'ooff') for b in s['breaks']):
+        s['latest'] = s['earliest']
+    return 'required-breaks-' + lab
+
+
 DEVIATIONS = [dev_dup_job_id, dev_reserved_id, dev_demand_presence, dev_unbalance, dev_unbalance, dev_pd_times, dev_pd_times, dev_pd_times,
               dev_pd_times, dev_rs_times, dev_rs_times, dev_pd_three, dev_pd_three, dev_offset_bad_start, dev_empty_job, dev_empty_task_list, dev_duration, dev_neg_demand, dev_dup_type, dev_shift_times,
               dev_shift_times, dev_shift_times, dev_breaks, dev_breaks, dev_breaks, dev_reloads, dev_reloads, dev_costs, dev_profiles]
 # deviations that (mostly) land in a known deviation class: kept, but rarer
-KNOWN_DEVIATIONS = [dev_empty_vectors, dev_over8, dev_capacity_empty]
+KNOWN_DEVIATIONS = [dev_empty_vectors, dev_over8, dev_capacity_empty, dev_required_breaks]
 
 
 def gen_doc_case(rng):
@@ -695,17 +725,26 @@ def to_json(d):
             o['breaks'] = [brk(b) for b in s['breaks']]
         if s['reloads'] is not None:
             o['reloads'] = [reload(r) for r in s['reloads']]
+        if s.get('recharges') is not None:           # extended documents (sub-stream c10_ext): stations come after the reloads in CoordIndex order
+            o['recharges'] = {'maxDistance': s['recharges'].get('max_distance', 100000),
+                              'stations': [dict({'location': loc(), 'duration': 60},
+                                                **({'times': times(st['times'])} if st['times'] is not None else {}))
+                                           for st in s['recharges']['stations']]}
         return o
 
     def vehicle(v):
-        return {'typeId': v['type_id'], 'vehicleIds': v['vehicle_ids'], 'profile': {'matrix': v['profile']},
-                'costs': {'fixed': 10, 'distance': v['cost_distance'], 'time': v['cost_time']},
-                'shifts': [shift(s) for s in v['shifts']], 'capacity': v['capacity']}
+        o = {'typeId': v['type_id'], 'vehicleIds': v['vehicle_ids'], 'profile': {'matrix': v['profile']},
+             'costs': {'fixed': 10, 'distance': v['cost_distance'], 'time': v['cost_time']},
+             'shifts': [shift(s) for s in v['shifts']], 'capacity': v['capacity']}
+        if v.get('limits') is not None:               # extended documents (sub-stream c10_ext)
+            o['limits'] = {k: x for k, x in v['limits'].items() if x is not None}
+        return o
 
     plan = {'jobs': [job(j) for j in d['jobs']]}
     fleet = {'vehicles': [vehicle(v) for v in d['vehicles']], 'profiles': [{'name': p} for p in d['profiles']]}
     if d['resources'] is not None:
-        fleet['resources'] = [{'type': 'reload', 'id': r, 'capacity': [5] * max(1, d.get('ndim', 1))} for r in d['resources']]
+        dims = d.get('resource_dims') or [max(1, d.get('ndim', 1))] * len(d['resources'])     # resource_dims: extended documents (c10_ext)
+        fleet['resources'] = [{'type': 'reload', 'id': r, 'capacity': [5] * k} for r, k in zip(d['resources'], dims)]
     return {'plan': plan, 'fleet': fleet}
 
 
@@ -926,7 +965,28 @@ def py_known(d):
         out.append(8)
     if all(len(v['vehicle_ids']) == 0 for v in vs):
         out.append(9)
+    if any(v['vehicle_ids'] and any(g2_shift(s) for s in v['shifts']) for v in vs):
+        out.append(22)
     return out
+
+
+def req_spans(s):
+    """(is offset, (earliest, latest)) of the required breaks of a shift whose times parse (the duration is not part of the span)"""
+    out = []
+    for b in s['breaks'] or []:
+        if b[0] == 'roff':
+            out.append((True, (b[1], b[2])))
+        elif b[0] == 'rexact' and b[1][1] is not None and b[2][1] is not None:
+            out.append((False, (b[1][1], b[2][1])))
+    return out
+
+
+def g2_shift(s):
+    sp = req_spans(s)
+    if any(a[0] != b[0] for a in sp for b in sp):
+        return True
+    ws = [x[1] for x in sp]
+    return any(overlap(ws[i], ws[j]) for i in range(len(ws)) for j in range(i + 1, len(ws)))
 
 
 # ------------------------------------------------------------------ full documents (python reference for relations / objectives / routing)
@@ -1126,17 +1186,23 @@ def shrink_candidates(c):
                 yield mk(nd)
 
 
-MANIFEST_TEXT = ('Machine-checked proof (Coq, no axioms) over an executable model of the pragmatic validation (all E11xx job rules, all E13xx '
-                 'vehicle rules, E1500/1501/1504/1505 as written in validation/*.rs, including the eager evaluation of '
-                 'every rule and the parse_time unwraps) and of the unwraps/asserts of the reader behind it: outside four structurally defined known '
-                 'deviation classes, reading never panics, a document is accepted iff it breaks none of the documented rules (written '
-                 'independently from the error index page) and the reported codes are exactly the broken rules; each known class has a '
-                 'machine-checked witness (three panics, one wrongly reported code); six earlier classes (K1-K5, K10) and three crash classes outside the Coq fragment '
-                 '(X12 location index outside the matrix, X13 unparsable matrix timestamp, X15 short errorCodes) were repaired in /repo and are covered by the theorems / the reference now '
-                 '(a successful matrix step is proved to yield full square cost vectors that cover the given distances). The rule tables are '
-                 're-extracted from the Rust sources and the documentation on every run and the completeness theorem is re-proved against them. '
+MANIFEST_TEXT = ('Machine-checked proof (Coq, no axioms) over an executable model of the pragmatic validation - every rule of all five groups as '
+                 'written in validation/*.rs: jobs E11xx, vehicles E13xx, objectives E16xx (incl. job value / task order), routing E15xx in every '
+                 'location mode (coordinates, indices, mixed; supplied or approximated matrices; the overwriting reverse index of CoordIndex), '
+                 'relations E12xx (incl. the stateful E1204 walk), the eager evaluation of every rule and the parse_time unwraps - and of the reader '
+                 'behind it, step by step in the order of map_to_problem (read_fleet, reserved times, create_transport_costs with timestamps and '
+                 'errorCodes, DynamicTransportCost, required and conditional jobs incl. recharge stations, Jobs::new lookups, read_locks, the goal '
+                 'reader, the cluster config) with every unwrap / assert / panic as an explicit outcome: outside structurally defined known deviation '
+                 'classes (K6-K9 on jobs / vehicles, X11, X14, X16, G1, G2 on the extended document, each a recorded finding with a machine-checked '
+                 'witness), reading never panics, a document is accepted iff it breaks none of the documented rules (written independently from the '
+                 'error index page, every rule function proved equal to its documented rule for ALL documents in the relation, objective and routing '
+                 'groups) and its matrices can become transport costs (E0002; proved away for documents read without matrices), and the reported '
+                 'codes are exactly the broken rules. Nine earlier classes were repaired in /repo and are covered by the theorems now. The rule tables, '
+                 'the text fingerprints of every rule function and helper of validation/*.rs and the helper predicates each rule uses are re-extracted '
+                 'from the Rust sources and the documentation on every run and compared with the pinned tables by re-proved theorems. '
                  'Model and spec are tied to /repo on every run by evaluating them inside Coq (vm_compute) on generated documents and diffing '
-                 'with the real ValidationContext::validate and String::read_pragmatic under catch_unwind.')
-MANIFEST_NOTE = ('Relation (E12xx) and objective (E16xx) rules, E1502/E1503 and matrix handling are checked against a python reference only. '
-                 'RFC 3339 parsing is an oracle. Adopted readings R1-R10 of the documentation are listed in Spec/Rules.v.')
+                 'with the real ValidationContext::validate, String::read_pragmatic and (ApiProblem, Vec<Matrix>)::read_pragmatic under catch_unwind.')
+MANIFEST_NOTE = ('Hierarchical-areas objectives, custom locations, skills / groups / compatibility / tags / break places are not modelled. The matrix step '
+                 '(E0002) has no independent specification beyond C10_matrix_step_spec / C10_transport_ok_is_square_and_covers_distances. '
+                 'RFC 3339 parsing is an oracle. Adopted readings R1-R20 of the documentation are listed in Spec/Rules.v and Spec/RulesX.v.')
 MANIFEST_TECHNIQUE = 'Coq proof over executable model + vm_compute differential correspondence with the Rust implementation'
